@@ -20,6 +20,9 @@ pub struct LBlock {
     pub returns_nil: bool,
     pub busy: u32,
     pub file: u8,
+    /// a block WITHOUT check-lua (other blocks of the file are scripted): never called, never reported
+    #[serde(default)]
+    pub plain: bool,
 }
 
 #[derive(Clone, Debug, Serialize, Deserialize, Hash, PartialEq, Eq)]
@@ -95,9 +98,11 @@ fn lay_out(c: &LuaCase) -> Vec<Laid> {
                 tag.push_str(&format!(" {k}={}", quote_attr(v)));
                 attrs.insert(k.clone(), v.clone());
             }
-            tag.push_str(&format!(" check-lua=\"scripts/s{i}.lua\""));
-            attrs.insert("check-lua".into(), format!("scripts/s{i}.lua"));
-            if let Some(p) = b.pattern {
+            if !b.plain {
+                tag.push_str(&format!(" check-lua=\"scripts/s{i}.lua\""));
+                attrs.insert("check-lua".into(), format!("scripts/s{i}.lua"));
+            }
+            if let Some(p) = b.pattern.filter(|_| !b.plain) {
                 let re = models::KEY_PATS[p as usize % models::KEY_PATS.len()].re;
                 tag.push_str(&format!(" check-lua-pattern={}", quote_attr(re)));
                 attrs.insert("check-lua-pattern".into(), re.to_string());
@@ -127,11 +132,13 @@ pub fn check(c: &LuaCase, probe: &Probe) -> Verdict {
         return Verdict::Unspecified("no blocks");
     }
     let n = c.blocks.len();
-    let mut kind: Vec<&str> = c.blocks.iter().map(|b| if b.returns_nil { "nil" } else { "payload" }).collect();
+    let mut kind: Vec<&str> = c.blocks.iter().map(|b| if b.plain { "plain" } else if b.returns_nil { "nil" } else { "payload" }).collect();
     for (bi, k) in &c.failing {
-        kind[*bi as usize % n] = KINDS[2 + *k as usize % (KINDS.len() - 2)];
+        if !c.blocks[*bi as usize % n].plain {
+            kind[*bi as usize % n] = KINDS[2 + *k as usize % (KINDS.len() - 2)];
+        }
     }
-    let any_failing = kind.iter().any(|k| !matches!(*k, "nil" | "payload"));
+    let any_failing = kind.iter().any(|k| !matches!(*k, "nil" | "payload" | "plain"));
     let laid = lay_out(c);
     let sb = if c.diff_mode { Sandbox::new() } else { Sandbox::with_fake_git() };
     let log_path = sb.base.join("calls.log");
@@ -141,6 +148,9 @@ pub fn check(c: &LuaCase, probe: &Probe) -> Verdict {
         sb.commit_all("base");
     }
     for (i, b) in c.blocks.iter().enumerate() {
+        if b.plain {
+            continue;
+        }
         let name = format!("lb{i}");
         let log = if c.count_calls { Some((log_s.as_str(), name.as_str())) } else { None };
         sb.write(&format!("scripts/s{i}.lua"), script(kind[i], b.busy, log).as_bytes());
@@ -244,7 +254,8 @@ pub fn check(c: &LuaCase, probe: &Probe) -> Verdict {
         }
         for i in 0..n {
             let name = format!("lb{i}");
-            if counts.get(name.as_str()).copied().unwrap_or(0) != 1 {
+            let want_calls = if c.blocks[i].plain { 0 } else { 1 };
+            if counts.get(name.as_str()).copied().unwrap_or(0) != want_calls {
                 return Verdict::Fail(show(&format!("validate() of block {name} was called {} times (call log: {counts:?})", counts.get(name.as_str()).copied().unwrap_or(0)), &out));
             }
         }
@@ -265,8 +276,8 @@ pub fn case_strategy() -> BoxedStrategy<LuaCase> {
         1 => Just("ends with nbsp\u{a0}\u{a0}".to_string()),
     ];
     let attr = (prop_oneof![Just("data-x"), Just("note"), Just("k_1"), Just("имя")], proptest::string::string_regex("[ -!#-;=?-~é]{0,12}").unwrap()).prop_map(|(k, v)| (k.to_string(), v));
-    let block = (proptest::collection::vec(text, 0..6), proptest::collection::vec(attr, 0..3), proptest::option::weighted(0.25, 0u8..5), proptest::bool::weighted(0.3), prop_oneof![3 => Just(0u32), 2 => 0u32..2000, 1 => 0u32..300000], 0u8..6)
-        .prop_map(|(lines, extra_attrs, pattern, returns_nil, busy, file)| LBlock { lines: lines.into_iter().map(|l| l.replace("<block", "<blok").replace("</block", "</blok")).collect(), extra_attrs, pattern, returns_nil, busy, file })
+    let block = (proptest::collection::vec(text, 0..6), proptest::collection::vec(attr, 0..3), proptest::option::weighted(0.25, 0u8..5), proptest::bool::weighted(0.3), prop_oneof![3 => Just(0u32), 2 => 0u32..2000, 1 => 0u32..300000], 0u8..6, proptest::bool::weighted(0.2))
+        .prop_map(|(lines, extra_attrs, pattern, returns_nil, busy, file, plain)| LBlock { lines: lines.into_iter().map(|l| l.replace("<block", "<blok").replace("</block", "</blok")).collect(), extra_attrs, pattern, returns_nil, busy, file, plain })
         .boxed();
     (
         prop_oneof![3 => proptest::collection::vec(block.clone(), 1..8), 1 => proptest::collection::vec(block, 8..41)],
@@ -281,7 +292,7 @@ pub fn case_strategy() -> BoxedStrategy<LuaCase> {
 }
 
 pub fn run(run: &mut Run) {
-    run.rule = "random: 1..40 check-lua blocks over up to 5 files (root and nested directories, one with a space; py/sh/toml/yaml), each with its own generated script, arbitrary content lines (printable ASCII incl. quotes and backslashes, Unicode, empty and whitespace-only first/last lines), 0..2 extra attributes, optional check-lua-pattern from the key-pattern family; scripts return a framed payload serialising ctx.file, ctx.line, the sorted ctx.attrs and content, or nil, after a busy loop of 0..300000 iterations; in half of the cases 1..3 blocks get a failing script (syntax error, error(), error with a table, no validate, number / boolean / table result) at any index; TOKIO_WORKER_THREADS in {1,2,4,16}, pinned to one core in 30%, `safe` mode with an appended call log in 50%, scan or new-file diff mode. Non-trivial = >= 3 blocks and (a failing script, or busy loops of different lengths).".into();
+    run.rule = "random: 1..40 check-lua blocks over up to 5 files (root and nested directories, one with a space; py/sh/toml/yaml), each with its own generated script (20% of the blocks carry no check-lua at all and sit between scripted ones), arbitrary content lines (printable ASCII incl. quotes and backslashes, Unicode, empty and whitespace-only first/last lines), 0..2 extra attributes, optional check-lua-pattern from the key-pattern family; scripts return a framed payload serialising ctx.file, ctx.line, the sorted ctx.attrs and content, or nil, after a busy loop of 0..300000 iterations; in half of the cases 1..3 blocks get a failing script (syntax error, error(), error with a table, no validate, number / boolean / table result) at any index; TOKIO_WORKER_THREADS in {1,2,4,16}, pinned to one core in 30%, `safe` mode with an appended call log in 50%, scan or new-file diff mode. Non-trivial = >= 3 blocks and (a failing script, or busy loops of different lengths).".into();
     run.assumptions = vec!["the Tokio schedule is perturbed (worker count, affinity, busy loops), not owned: an interleaving-specific loss could be missed".into()];
     run.shrink_iters = 120;
     run.random("lua", run.tier.pick(500, 12000), case_strategy, check);
